@@ -69,6 +69,8 @@ class Gen {
       [strs.length ? 2 : 0, () => `(${r.pick(strs).name} = w.s${this.id()}, ${sub()})`],
       [strs.length ? 2 : 0, () => `(${r.pick(strs).name} += ${sub()})`],
       [objs.length ? 1 : 0, () => `(${r.pick(objs).name}.p${r.int(3)} += ${sub()})`],
+      [1, () => `(w.o${this.id()}.o2.p${r.int(3)} += ${sub()})`],
+      [0.6, () => `(w.fobj${this.id()}()[w.k${this.id()}] += ${sub()})`],
       [objs.length ? 1 : 0, () => `${r.pick(objs).name}.s${this.id()}`],
       [1, () => `(w.f${this.id()}(), ${sub()})`],
       [1.5, () => `(${sub()}, ${sub()})`], // comma sequences whose earlier expressions are instrumented too
